@@ -51,9 +51,11 @@ CFGS = {
     "bug_nohelp": ("P_rw1", dict(NF=0, Bug='"no_help"'), INV),
     "bug_nowalk": ("P_rw1", dict(NF=0, Bug='"helping_not_walked"'), INV),
     # lock-freedom: freeze everybody else at any point
-    "solo_rw1": ("P_rw1", dict(SoloOn="TRUE"), "Refines SoloProgress"),
-    "solo_rw1_nf0": ("P_rw1", dict(SoloOn="TRUE", NF=0), "Refines SoloProgress"),
-    "solo_rcust": ("P_rcust", dict(SoloOn="TRUE", MaxObj=6, NAddr=4), "Refines SoloProgress"),
+    "solo_rw1": ("P_rw1", dict(SoloOn="TRUE"), "Refines SoloProgress SoloBound"),
+    "solo_rw1_nf0": ("P_rw1", dict(SoloOn="TRUE", NF=0), "Refines SoloProgress SoloBound"),
+    "solo_rcust": ("P_rcust", dict(SoloOn="TRUE", MaxObj=6, NAddr=4), "Refines SoloProgress SoloBound"),
+    "solo_churn": ("P_churn", dict(SoloOn="TRUE", MaxObj=3), "Refines SoloProgress SoloBound"),
+    "bug_solo_cooldown": ("P_churn", dict(SoloOn="TRUE", MaxObj=3, Bug='"cooldown_wait"'), "Refines SoloProgress SoloBound"),
 }
 # liveness: termination of every operation under weak fairness (temporal property, no state constraint)
 LIVE = {"live_rw1": ("P_rw1", {}), "live_rw1_nf0": ("P_rw1", dict(NF=0)), "live_lfsw": ("P_lfsw", dict(MaxObj=5)),
